@@ -218,6 +218,7 @@ namespace Pistache::Tcp
         std::shared_ptr<Tcp::Handler> handler_;
 
     protected:
+        void handlePeerDisconnection(const std::shared_ptr<Peer>& peer);
         void removePeer(const std::shared_ptr<Peer>& peer);
         std::unordered_map<Fd, std::shared_ptr<Peer>> peers;
 
@@ -240,7 +241,6 @@ namespace Pistache::Tcp
         ssize_t sendRawBuffer(Fd fd, const char* buffer, size_t len, int flags);
         ssize_t sendFile(Fd fd, Fd file, off_t offset, size_t len);
 
-        void handlePeerDisconnection(const std::shared_ptr<Peer>& peer);
         void handleIncoming(const std::shared_ptr<Peer>& peer);
         void handleWriteQueue(bool flush = false);
         void handleTimerQueue();
